@@ -221,17 +221,17 @@ impl ModelLevel {
     }
 
     pub fn get(&self, id: OrderId) -> Option<&Ord_> {
-        self.orders.iter().find(|o| o_id(o) == id)
+        self.orders.iter().find(|o| same_id(o_id(o), id))
     }
 
     fn take(&mut self, id: OrderId) -> Option<Ord_> {
-        let pos = self.orders.iter().position(|o| o_id(o) == id)?;
+        let pos = self.orders.iter().position(|o| same_id(o_id(o), id))?;
         Some(self.orders.remove(pos))
     }
 
     fn purge_tickets(&mut self, id: OrderId) {
         if !self.kf2 {
-            self.tickets.retain(|t| *t != id);
+            self.tickets.retain(|t| !same_id(*t, id));
         }
     }
 
@@ -259,7 +259,7 @@ impl ModelLevel {
     }
 
     fn amend(&mut self, id: OrderId, n: u64) -> Option<Ord_> {
-        let pos = self.orders.iter().position(|o| o_id(o) == id)?;
+        let pos = self.orders.iter().position(|o| same_id(o_id(o), id))?;
         let new = spec_amend(&self.orders[pos], n);
         self.orders[pos] = new;
         if self.kf2 {
@@ -437,7 +437,7 @@ impl ModelQueue {
     }
     pub fn push(&mut self, o: Ord_) {
         let id = o_id(&o);
-        if let Some(p) = self.orders.iter().position(|x| o_id(x) == id) {
+        if let Some(p) = self.orders.iter().position(|x| same_id(o_id(x), id)) {
             // pushing an id that is already queued replaces the order (map semantics); not used by the
             // alphabets (ids are pushed once or re-pushed after removal)
             self.orders[p] = o;
@@ -448,10 +448,10 @@ impl ModelQueue {
     }
     pub fn pop(&mut self) -> Option<Ord_> {
         while let Some(t) = self.tickets.pop_front() {
-            if let Some(p) = self.orders.iter().position(|x| o_id(x) == t) {
+            if let Some(p) = self.orders.iter().position(|x| same_id(o_id(x), t)) {
                 let o = self.orders.remove(p);
                 if !self.kf2 {
-                    self.tickets.retain(|x| *x != t);
+                    self.tickets.retain(|x| !same_id(*x, t));
                 }
                 return Some(o);
             }
@@ -459,15 +459,15 @@ impl ModelQueue {
         None
     }
     pub fn remove(&mut self, id: OrderId) -> Option<Ord_> {
-        let p = self.orders.iter().position(|x| o_id(x) == id)?;
+        let p = self.orders.iter().position(|x| same_id(o_id(x), id))?;
         let o = self.orders.remove(p);
         if !self.kf2 {
-            self.tickets.retain(|x| *x != id);
+            self.tickets.retain(|x| !same_id(*x, id));
         }
         Some(o)
     }
     pub fn find(&self, id: OrderId) -> Option<Ord_> {
-        self.orders.iter().find(|x| o_id(x) == id).copied()
+        self.orders.iter().find(|x| same_id(o_id(x), id)).copied()
     }
     pub fn len(&self) -> usize {
         self.orders.len()
